@@ -359,13 +359,14 @@ proof fn lemma_jj_rel_next(da: RuleDay, ta: int, ia: JulianDayCheckInfos, db: Ru
     }
 }
 
-// ASSUMED (not proved in this version; see DESIGN.md section 5, C11): the audited decision procedures for rule
-// pairs involving the Mm.w.d notation decide order stability.  Evidence for them: the exhaustive comparison of the
-// design phase (131 155 299 decisions against a 400-year evaluation, 0 mismatches) and the bounded C11 probe.
-#[verifier::external_body]
-proof fn axiom_mj_stable(m: MonthWeekDay, tm: int, im: MonthWeekDayCheckInfos, d: RuleDay, td: int, id: JulianDayCheckInfos)
+// ASSUMED for the pair Mm.w.d x Mm.w.d only (axiom_mm_stable, not proved; see DESIGN.md, C11): the audited decision
+// procedure decides order stability.  Evidence for it: the exhaustive comparison of the design phase (131 155 299
+// decisions against a 400-year evaluation, 0 mismatches) and the bounded C11 probe.  The mixed pairs are proved.
+// Mm.w.d against a Julian-notation day: the audited decision procedure decides order stability (proved)
+proof fn lemma_mj_stable(m: MonthWeekDay, tm: int, im: MonthWeekDayCheckInfos, d: RuleDay, td: int, id: JulianDayCheckInfos)
     requires
         mwd_wf(m),
+        rd_wf(d),
         day_time_ok(tm),
         day_time_ok(td),
         mwinfo_of(im, m, tm),
@@ -373,6 +374,24 @@ proof fn axiom_mj_stable(m: MonthWeekDay, tm: int, im: MonthWeekDayCheckInfos, d
     ensures
         pair_stable(RuleDay::MonthWeekDay(m), tm, d, td) == mj_decision(im, id),
 {
+    hide(rule_daynum);
+    let dm = RuleDay::MonthWeekDay(m);
+    lemma_mj_same(m, tm, im, d, td, id);
+    lemma_mj_next_mj(m, tm, im, d, td, id);
+    lemma_mj_next_jm(m, tm, im, d, td, id);
+    // if the Julian day never comes after the Mm.w.d day of the same year, it comes before next year's as well
+    if mj_j_le_m_same(im, id) {
+        assert forall|y: int| #[trigger] rd_instant(d, td, y) <= rd_instant(dm, tm, y + 1) by {
+            lemma_instant_step(dm, tm, y);
+            assert(rd_instant(d, td, y) <= rd_instant(dm, tm, y));
+        }
+    }
+    if mj_m_le_j_same(im, id) {
+        assert forall|y: int| #[trigger] rd_instant(dm, tm, y) <= rd_instant(d, td, y + 1) by {
+            lemma_instant_step(d, td, y);
+            assert(rd_instant(dm, tm, y) <= rd_instant(d, td, y));
+        }
+    }
 }
 
 #[verifier::external_body]
@@ -406,4 +425,251 @@ proof fn lemma_order_stable_is_pair(a: AlternateTime)
     assert forall|y: int| alt_e(a, y) == #[trigger] rd_instant(d2, t2, y) by {}
     assert forall|y: int| #[trigger] alt_s(a, y) == rd_instant(d1, t1, y) by {}
     assert forall|y: int| #[trigger] alt_e(a, y) == rd_instant(d2, t2, y) by {}
+}
+
+// ---- C11, Mm.w.d against a Julian-notation day ----------------------------------------------------
+
+// a year with a given pattern of (leap(y), leap(y+1)) - 0: (common, common), 1: (common, leap), 2: (leap, common) -
+// whose January 1 falls on weekday r (2001..2028 contain all 21 combinations)
+spec fn wit_year(pat: int, r: int) -> int {
+    if pat == 0 {
+        if r == 1 { 2001 } else if r == 6 { 2005 } else if r == 4 { 2009 } else if r == 2 { 2013 } else if r == 0 { 2017 } else if r == 5 { 2021 } else { 2025 }
+    } else if pat == 1 {
+        if r == 3 { 2003 } else if r == 1 { 2007 } else if r == 6 { 2011 } else if r == 4 { 2015 } else if r == 2 { 2019 } else if r == 0 { 2023 } else { 2027 }
+    } else {
+        if r == 4 { 2004 } else if r == 2 { 2008 } else if r == 0 { 2012 } else if r == 5 { 2016 } else if r == 3 { 2020 } else if r == 1 { 2024 } else { 2028 }
+    }
+}
+
+proof fn lemma_wit_year(pat: int, r: int)
+    requires
+        0 <= pat <= 2,
+        0 <= r <= 6,
+    ensures
+        weekday(dby(wit_year(pat, r))) == r,
+        leap(wit_year(pat, r)) == (pat == 2),
+        leap(wit_year(pat, r) + 1) == (pat == 1),
+{
+}
+
+// offset of the Mm.w.d instant from the start of its year: inside the recorded range of the year's class
+proof fn lemma_m_off_range(m: MonthWeekDay, tm: int, im: MonthWeekDayCheckInfos, y: int)
+    requires
+        mwd_wf(m),
+        mwinfo_of(im, m, tm),
+    ensures
+        leap(y) ==> dby(y) * 86400 + im.start_leap_year_offset_range.0 <= rd_instant(RuleDay::MonthWeekDay(m), tm, y) <= dby(y) * 86400 + im.start_leap_year_offset_range.1,
+        !leap(y) ==> dby(y) * 86400 + im.start_normal_year_offset_range.0 <= rd_instant(RuleDay::MonthWeekDay(m), tm, y) <= dby(y) * 86400 + im.start_normal_year_offset_range.1,
+{
+    lemma_mwd_exists(y, m.month as int, m.week as int, m.week_day as int);
+}
+
+// every day of the window is attained: if day lo + k of the month has the rule's weekday, the instant is range.0 + k days
+proof fn lemma_m_attain(m: MonthWeekDay, tm: int, im: MonthWeekDayCheckInfos, y: int, k: int)
+    requires
+        mwd_wf(m),
+        mwinfo_of(im, m, tm),
+        0 <= k <= 6,
+        weekday(days_civil(y, m.month as int, mwd_window(m.month as int, m.week as int, leap(y)).0 + k)) == m.week_day,
+    ensures
+        rd_instant(RuleDay::MonthWeekDay(m), tm, y) == dby(y) * 86400 + (if leap(y) { im.start_leap_year_offset_range.0 } else { im.start_normal_year_offset_range.0 }) + k * 86400,
+{
+    let lo = mwd_window(m.month as int, m.week as int, leap(y)).0;
+    lemma_mwd_is(y, m.month as int, m.week as int, m.week_day as int, lo + k);
+}
+
+proof fn lemma_mod7_add(a: int, c: int, w: int)
+    requires
+        0 <= w <= 6,
+        a % 7 == (w - c) % 7,
+    ensures
+        (a + c) % 7 == w,
+{
+}
+
+// for a year pattern and an extreme (k = 0: earliest day of the window, k = 6: latest) there is a year y of that pattern in which
+// the Mm.w.d day of year y + sh (sh = 0 or 1) is at that extreme
+proof fn lemma_m_extreme_year(m: MonthWeekDay, tm: int, im: MonthWeekDayCheckInfos, pat: int, sh: int, k: int) -> (y: int)
+    requires
+        mwd_wf(m),
+        mwinfo_of(im, m, tm),
+        0 <= pat <= 2,
+        sh == 0 || sh == 1,
+        k == 0 || k == 6,
+    ensures
+        leap(y) == (pat == 2),
+        leap(y + 1) == (pat == 1),
+        rd_instant(RuleDay::MonthWeekDay(m), tm, y + sh) == dby(y + sh) * 86400 + (if leap(y + sh) { im.start_leap_year_offset_range.0 } else { im.start_normal_year_offset_range.0 }) + k * 86400,
+{
+    hide(dby);
+    hide(cum);
+    let lp = if sh == 0 { pat == 2 } else { pat == 1 };
+    let lo = mwd_window(m.month as int, m.week as int, lp).0;
+    let c = cum(m.month as int, lp) + lo + k - 1;
+    // weekday wanted for January 1 of year y + sh
+    let r1 = (m.week_day as int - c) % 7;
+    // weekday of January 1 of year y
+    let r = if sh == 0 { r1 } else { (r1 - (if pat == 2 { 366int } else { 365 })) % 7 };
+    lemma_wit_year(pat, r);
+    let y = wit_year(pat, r);
+    lemma_dby_step(y);
+    assert(leap(y + sh) == lp);
+    if sh == 1 {
+        lemma_mod7_add(4 + dby(y), if pat == 2 { 366int } else { 365 }, r1);
+    }
+    assert(weekday(dby(y + sh)) == r1);
+    lemma_mod7_add(4 + dby(y + sh), c, m.week_day as int);
+    assert(days_civil(y + sh, m.month as int, lo + k) == dby(y + sh) + c);
+    assert(weekday(days_civil(y + sh, m.month as int, lo + k)) == m.week_day);
+    lemma_m_attain(m, tm, im, y + sh, k);
+    y
+}
+
+proof fn lemma_mj_same(m: MonthWeekDay, tm: int, im: MonthWeekDayCheckInfos, d: RuleDay, td: int, id: JulianDayCheckInfos)
+    requires
+        mwd_wf(m),
+        mwinfo_of(im, m, tm),
+        jinfo_of(id, d, td),
+    ensures
+        (forall|y: int| rd_instant(RuleDay::MonthWeekDay(m), tm, y) <= #[trigger] rd_instant(d, td, y)) == mj_m_le_j_same(im, id),
+        (forall|y: int| rd_instant(d, td, y) <= #[trigger] rd_instant(RuleDay::MonthWeekDay(m), tm, y)) == mj_j_le_m_same(im, id),
+{
+    hide(rule_daynum);
+    hide(dby);
+    let dm = RuleDay::MonthWeekDay(m);
+    if mj_m_le_j_same(im, id) {
+        assert forall|y: int| rd_instant(dm, tm, y) <= #[trigger] rd_instant(d, td, y) by {
+            lemma_m_off_range(m, tm, im, y);
+        }
+    }
+    if mj_j_le_m_same(im, id) {
+        assert forall|y: int| rd_instant(d, td, y) <= #[trigger] rd_instant(dm, tm, y) by {
+            lemma_m_off_range(m, tm, im, y);
+            assert(rd_instant(d, td, y) == dby(y) * 86400 + (if leap(y) { id.start_leap_year_offset as int } else { id.start_normal_year_offset as int }));
+        }
+    }
+    if forall|y: int| rd_instant(dm, tm, y) <= #[trigger] rd_instant(d, td, y) {
+        let y0 = lemma_m_extreme_year(m, tm, im, 0, 0, 6);
+        assert(rd_instant(dm, tm, y0) <= rd_instant(d, td, y0));
+        let y2 = lemma_m_extreme_year(m, tm, im, 2, 0, 6);
+        assert(rd_instant(dm, tm, y2) <= rd_instant(d, td, y2));
+    }
+    if forall|y: int| rd_instant(d, td, y) <= #[trigger] rd_instant(dm, tm, y) {
+        let y0 = lemma_m_extreme_year(m, tm, im, 0, 0, 0);
+        assert(rd_instant(d, td, y0) <= rd_instant(dm, tm, y0));
+        assert(rd_instant(d, td, y0) == dby(y0) * 86400 + id.start_normal_year_offset);
+        let y2 = lemma_m_extreme_year(m, tm, im, 2, 0, 0);
+        assert(rd_instant(d, td, y2) <= rd_instant(dm, tm, y2));
+        assert(rd_instant(d, td, y2) == dby(y2) * 86400 + id.start_leap_year_offset);
+    }
+}
+
+// M(y) against J(y + 1)
+proof fn lemma_mj_next_mj(m: MonthWeekDay, tm: int, im: MonthWeekDayCheckInfos, d: RuleDay, td: int, id: JulianDayCheckInfos)
+    requires
+        mwd_wf(m),
+        mwinfo_of(im, m, tm),
+        jinfo_of(id, d, td),
+    ensures
+        (forall|y: int| #[trigger] rd_instant(RuleDay::MonthWeekDay(m), tm, y) <= rd_instant(d, td, y + 1)) == mj_m_le_jnext(im, id),
+        (forall|y: int| rd_instant(d, td, y + 1) <= #[trigger] rd_instant(RuleDay::MonthWeekDay(m), tm, y)) == mj_jnext_le_m(im, id),
+{
+    hide(rule_daynum);
+    hide(dby);
+    let dm = RuleDay::MonthWeekDay(m);
+    assert forall|y: int| #[trigger] dby(y + 1) == dby(y) + (if leap(y) { 366int } else { 365 }) by {
+        lemma_dby_step(y);
+    }
+    if mj_m_le_jnext(im, id) {
+        assert forall|y: int| #[trigger] rd_instant(dm, tm, y) <= rd_instant(d, td, y + 1) by {
+            lemma_m_off_range(m, tm, im, y);
+            lemma_year_patterns(y);
+            assert(rd_instant(d, td, y + 1) == dby(y + 1) * 86400 + (if leap(y + 1) { id.start_leap_year_offset as int } else { id.start_normal_year_offset as int }));
+        }
+    }
+    if mj_jnext_le_m(im, id) {
+        assert forall|y: int| rd_instant(d, td, y + 1) <= #[trigger] rd_instant(dm, tm, y) by {
+            lemma_m_off_range(m, tm, im, y);
+            lemma_year_patterns(y);
+            assert(rd_instant(d, td, y + 1) == dby(y + 1) * 86400 + (if leap(y + 1) { id.start_leap_year_offset as int } else { id.start_normal_year_offset as int }));
+        }
+    }
+    if forall|y: int| #[trigger] rd_instant(dm, tm, y) <= rd_instant(d, td, y + 1) {
+        let y0 = lemma_m_extreme_year(m, tm, im, 0, 0, 6);
+        assert(rd_instant(dm, tm, y0) <= rd_instant(d, td, y0 + 1));
+        assert(rd_instant(d, td, y0 + 1) == dby(y0 + 1) * 86400 + id.start_normal_year_offset);
+        let y1 = lemma_m_extreme_year(m, tm, im, 1, 0, 6);
+        assert(rd_instant(dm, tm, y1) <= rd_instant(d, td, y1 + 1));
+        assert(rd_instant(d, td, y1 + 1) == dby(y1 + 1) * 86400 + id.start_leap_year_offset);
+        let y2 = lemma_m_extreme_year(m, tm, im, 2, 0, 6);
+        assert(rd_instant(dm, tm, y2) <= rd_instant(d, td, y2 + 1));
+        assert(rd_instant(d, td, y2 + 1) == dby(y2 + 1) * 86400 + id.start_normal_year_offset);
+    }
+    if forall|y: int| rd_instant(d, td, y + 1) <= #[trigger] rd_instant(dm, tm, y) {
+        let y0 = lemma_m_extreme_year(m, tm, im, 0, 0, 0);
+        assert(rd_instant(d, td, y0 + 1) <= rd_instant(dm, tm, y0));
+        assert(rd_instant(d, td, y0 + 1) == dby(y0 + 1) * 86400 + id.start_normal_year_offset);
+        let y1 = lemma_m_extreme_year(m, tm, im, 1, 0, 0);
+        assert(rd_instant(d, td, y1 + 1) <= rd_instant(dm, tm, y1));
+        assert(rd_instant(d, td, y1 + 1) == dby(y1 + 1) * 86400 + id.start_leap_year_offset);
+        let y2 = lemma_m_extreme_year(m, tm, im, 2, 0, 0);
+        assert(rd_instant(d, td, y2 + 1) <= rd_instant(dm, tm, y2));
+        assert(rd_instant(d, td, y2 + 1) == dby(y2 + 1) * 86400 + id.start_normal_year_offset);
+    }
+}
+
+// J(y) against M(y + 1)
+proof fn lemma_mj_next_jm(m: MonthWeekDay, tm: int, im: MonthWeekDayCheckInfos, d: RuleDay, td: int, id: JulianDayCheckInfos)
+    requires
+        mwd_wf(m),
+        mwinfo_of(im, m, tm),
+        jinfo_of(id, d, td),
+    ensures
+        (forall|y: int| #[trigger] rd_instant(d, td, y) <= rd_instant(RuleDay::MonthWeekDay(m), tm, y + 1)) == mj_j_le_mnext(im, id),
+        (forall|y: int| rd_instant(RuleDay::MonthWeekDay(m), tm, y + 1) <= #[trigger] rd_instant(d, td, y)) == mj_mnext_le_j(im, id),
+{
+    hide(rule_daynum);
+    hide(dby);
+    let dm = RuleDay::MonthWeekDay(m);
+    assert forall|y: int| #[trigger] dby(y + 1) == dby(y) + (if leap(y) { 366int } else { 365 }) by {
+        lemma_dby_step(y);
+    }
+    if mj_j_le_mnext(im, id) {
+        assert forall|y: int| #[trigger] rd_instant(d, td, y) <= rd_instant(dm, tm, y + 1) by {
+            lemma_m_off_range(m, tm, im, y + 1);
+            lemma_year_patterns(y);
+        }
+    }
+    if mj_mnext_le_j(im, id) {
+        assert forall|y: int| rd_instant(dm, tm, y + 1) <= #[trigger] rd_instant(d, td, y) by {
+            lemma_m_off_range(m, tm, im, y + 1);
+            lemma_year_patterns(y);
+        }
+    }
+    if forall|y: int| #[trigger] rd_instant(d, td, y) <= rd_instant(dm, tm, y + 1) {
+        let y0 = lemma_m_extreme_year(m, tm, im, 0, 1, 0);
+        assert(rd_instant(d, td, y0) <= rd_instant(dm, tm, y0 + 1));
+        let y1 = lemma_m_extreme_year(m, tm, im, 1, 1, 0);
+        assert(rd_instant(d, td, y1) <= rd_instant(dm, tm, y1 + 1));
+        let y2 = lemma_m_extreme_year(m, tm, im, 2, 1, 0);
+        assert(rd_instant(d, td, y2) <= rd_instant(dm, tm, y2 + 1));
+    }
+    if forall|y: int| rd_instant(dm, tm, y + 1) <= #[trigger] rd_instant(d, td, y) {
+        let y0 = lemma_m_extreme_year(m, tm, im, 0, 1, 6);
+        assert(rd_instant(dm, tm, y0 + 1) <= rd_instant(d, td, y0));
+        let y1 = lemma_m_extreme_year(m, tm, im, 1, 1, 6);
+        assert(rd_instant(dm, tm, y1 + 1) <= rd_instant(d, td, y1));
+        let y2 = lemma_m_extreme_year(m, tm, im, 2, 1, 6);
+        assert(rd_instant(dm, tm, y2 + 1) <= rd_instant(d, td, y2));
+    }
+}
+
+// both kinds of rule day move forward from one year to the next
+proof fn lemma_instant_step(d: RuleDay, t: int, y: int)
+    requires
+        rd_wf(d),
+    ensures
+        rd_instant(d, t, y) < rd_instant(d, t, y + 1),
+{
+    lemma_daynum_step(d, y);
 }
